@@ -268,7 +268,7 @@ def probe_single(item):
 # parent side: attribution of missed flows
 
 DIM_FIELDS = ("sk", "tk", "pos", "chain", "twist", "src_mode", "snk_mode", "src_idx", "snk_idx", "imp", "layout", "place",
-              "srcin", "targets", "put")
+              "srcin", "targets", "put", "pre_call")
 
 
 def norm_gadget(g):
@@ -295,8 +295,8 @@ def norm_gadget(g):
     if helper_levels == 0 and not g2.get("srcin"):
         g2["imp"] = "from"
         g2["layout"] = [0]
-    for k in ("srcin", "targets", "put"):
-        if g2.get(k) is None:
+    for k in ("srcin", "targets", "put", "pre_call"):
+        if g2.get(k) is None or (k == "pre_call" and not g2.get(k)):
             g2.pop(k, None)
     return g2
 
@@ -363,6 +363,8 @@ def reference_swaps(g):
     out = []
     if g.get("srcin"):
         out.append(("srcin", dict(g, srcin=None)))
+    if g.get("pre_call"):
+        out.append(("precall", dict(g, pre_call=None)))
     if g["src_mode"] != "base" or g["snk_mode"] not in ("base", "multi"):
         out.append(("modes", dict(g, src_mode="base", snk_mode=g["snk_mode"] if g["snk_mode"] == "multi" else "base")))
     if any(f != 0 for f in g["layout"]) and g["imp"] == "mod":
@@ -376,7 +378,7 @@ def reference_swaps(g):
             out.append(("sk", dict(g, sk=sk_ref, place="func" if sk_ref == "param" or g["place"] == "method" else g["place"])))
     for tk_ref in (("call", 0), ("mcall", 0), ("fwrite", 0)):
         if tk_ref != (g["tk"], g["pos"]):
-            out.append(("tk", dict(g, tk=tk_ref[0], pos=tk_ref[1], twist=None, targets=None, put=None,
+            out.append(("tk", dict(g, tk=tk_ref[0], pos=tk_ref[1], twist=None, targets=None, put=None, pre_call=None,
                                    snk_mode="base" if g["snk_mode"] == "multi" else g["snk_mode"])))
     return out
 
@@ -422,7 +424,7 @@ def generalise(g, atom_chain):
     """Generator: which of rule modes / layout / place / source kind / sink kind matter for this failing sub-chain?"""
     cfg = norm_gadget(dict(g, chain=atom_chain))
     relevant = {}
-    for dim in ("srcin", "modes", "imp", "layout", "place", "sk", "tk"):
+    for dim in ("srcin", "precall", "modes", "imp", "layout", "place", "sk", "tk"):
         cands = [sw for d, sw in reference_swaps(cfg) if d == dim]
         if not cands or (dim == "layout" and relevant.get("imp")):
             continue
@@ -483,10 +485,13 @@ def generalise(g, atom_chain):
     sig = f"{sk or 'any'}->{tk_txt}:via:{chain_text(atom_chain)}"
     if relevant.get("imp"):
         # a helper reached through `import m` + `m.helper(...)`: named by carrier kind, whatever the variant
-        sig = f"{sk or 'any'}->{tk_txt}:via:{'+'.join(c for c, _ in atom_chain) or 'direct'}:helper-reached-through-module-import"
+        # (a carrier kind is named once: with helper levels spread over files, two module-qualified calls can be needed to lose it)
+        sig = f"{sk or 'any'}->{tk_txt}:via:{'+'.join(dict.fromkeys(c for c, _ in atom_chain)) or 'direct'}:helper-reached-through-module-import"
     if relevant.get("srcin"):
         # through a module-qualified (unresolved) callee every shape of the callee is lost alike
         sig += ":source-in-callee" if relevant.get("imp") else f":source-in-callee({g['srcin']})"
+    if relevant.get("precall"):
+        sig += ":second-call-of-the-sink-name"
     if relevant.get("layout"):
         sig += ":multi-file"
     if relevant.get("place"):
@@ -742,11 +747,15 @@ def main():
             chk.count(f"sink kind {g['tk']}: dynamic flows", 1)
             for c in {c for c, _ in g["chain"] if c != "broken"} or {"direct"}:
                 chk.count(f"carrier {c}: dynamic flows", 1)
+            if any(c == "param" and v % 8 >= 3 for c, v in g["chain"]):
+                chk.count("parameter passing with several keyword arguments: dynamic flows", 1)
             chk.nontrivial_case((g["sk"], g["tk"], chain_text(norm_gadget(g)["chain"])))
             if g.get("srcin"):
                 chk.count("source inside a callee: dynamic flows", 1)
                 if g["srcin"][:2] in ("r2", "r3"):
                     chk.count("source inside a callee with 2-3 return statements: dynamic flows", 1)
+                if g["srcin"][:2] in ("fv", "pm"):
+                    chk.count("source behind a call statement with two possible callees: dynamic flows", 1)
             if g.get("targets"):
                 chk.count("sink rule with several targets: dynamic flows", 1)
             for side in ("src_mode", "snk_mode"):
@@ -831,8 +840,10 @@ def main():
         for c in gen_flow.CARRIERS + ("direct",):
             chk.require(f"carrier {c}: dynamic flows", per)
         chk.require("multi-file programs", 20 if not thorough else 500)
-        chk.require("source inside a callee with 2-3 return statements: dynamic flows", 15 if not thorough else 300)
+        chk.require("source inside a callee with 2-3 return statements: dynamic flows", 6 if not thorough else 150)
+        chk.require("source behind a call statement with two possible callees: dynamic flows", 6 if not thorough else 150)
         chk.require("sink rule with several targets: dynamic flows", 8 if not thorough else 150)
+        chk.require("parameter passing with several keyword arguments: dynamic flows", 8 if not thorough else 150)
         chk.require("restricted rule that applies: dynamic flows", 20 if not thorough else 400)
         chk.require("decoy sites (same name, excluded by the restriction)", 20 if not thorough else 400)
         if chk.counters.get("gadgets intended positive but not observed dynamically", 0) or \
